@@ -142,6 +142,10 @@ static void build_cfg_list(void)
 			if (!T && j >= 8 && j <= 12 && d == 1) continue;
 			add_cfg(3, 0, k, rr, (j & 1) ? 5 : 3, seeds[(j + (unsigned)(d + 1)) % 8], 1);
 		}
+		/* equations with 31..33 and 63..65 terms (N1*k/(n-k) sources plus the previous repair symbol): batch sizes of 32 / 64 in the encoder
+		 * or the decoder's per-equation loops */
+		{ static const uint32_t kk[] = { 60, 62, 63, 64, 65, 66, 126, 127, 128, 130 };
+		  for (unsigned i = 0; i < sizeof kk / sizeof kk[0]; i++) { if (!T && (i & 1) && kk[i] > 66) continue; add_cfg(3, 0, kk[i], 8, 4, seeds[i % 8], 1); if (T || i % 3 == 0) add_cfg(3, 0, kk[i], 6, 3, seeds[(i + 1) % 8], 1); } }
 		/* extra-entry counts of exactly 256 and 512 (2(n-k) - N1*k at low rates): a count or flag narrowed to 8 bits reads zero there */
 		add_cfg(3, 0, 10, 148, 4, 1, 1); add_cfg(3, 0, 64, 256, 4, 16807, 1); add_cfg(3, 0, 30, 218, 6, 2, 1); add_cfg(3, 0, 10, 276, 4, 3, 1);
 		if (!strcmp(g_run.prop, "C07") || !strcmp(g_run.prop, "C08") || !strcmp(g_run.prop, "C01")) {
